@@ -9,6 +9,7 @@
      (rt sel fmt roi v)       -> ((w cp...) RD (w2 cp...)|(w2none) (writable b) (normal b))   sel 0 = .rs, 1 = .r
      (read sel fmt roi (cp...)) -> RD                    RD = (ok v) | (err) | (nofuel)
      (asarray fmt roi v)      -> v
+     (rfile fmt roi (cp...))  -> (ok v...) | (err) | (nofuel)     repeated .r on a channel holding the text
      (form fmt roi v)         -> ((fmt cp...)|(fmtnone)) ((ok v)|(undef))
      (cls c)                  -> (space alpha digit numeric symbolic)
      (shape (cp...))          -> 0|1
@@ -130,6 +131,16 @@ Definition dispatch (x : sx) : sx :=
         match val_of_sx 1000 a with
         | Some v => sx_of_val (asarray E v)
         | None => sx_err "value"
+        end
+      else if is_tag "rfile" t then
+        match sx_as_zs a with
+        | Some text =>
+            match read_file E gen_cfg_r gen_r_lstrip gen_r_reposition_bytes text with
+            | Ok vs => SL (sx_w "ok" :: map sx_of_val vs)
+            | Err => SL [sx_w "err"]
+            | NoFuel => SL [sx_w "nofuel"]
+            end
+        | None => sx_err "text"
         end
       else if is_tag "form" t then
         match val_of_sx 1000 a with
